@@ -329,6 +329,10 @@ def _blue(v):
         {"type": "action-penalty", "weight": 0.2, "options": {"action_penalty": -0.5, "do_nothing_penalty": 0.125}},
         {"type": "action-penalty", "weight": 0.0, "options": {"action_penalty": -9.0, "do_nothing_penalty": 9.0}},
         {"type": "shared-reward", "weight": 1.0, "options": {"agent_name": "green_1"}},
+        # components watching ANOTHER node than the one the agent's matching actions address (client_1)
+        {"type": "green-admin-database-unreachable-penalty", "weight": 0.05,
+         "options": {"node_hostname": "client_2", "sticky": v.get("sticky", True)}},
+        {"type": "webpage-unavailable-penalty", "weight": 0.05, "options": {"node_hostname": "client_2", "sticky": v.get("sticky", True)}},
     ]
     return {
         "ref": "defender", "team": "BLUE", "type": "proxy-agent",
